@@ -70,38 +70,38 @@ theorem process_reject_reasons (d : DSS) (ps : PartialSig) (authOK : Bool) :
 
 /-- Whatever events happen in whatever order, the keys, the message hash, the threshold and the session id
     of a DSS object never change. -/
-theorem run_keeps_keys (d : DSS) (ops : List Op) : SameKeys d (run q d ops) := run_sameKeys d ops
+theorem run_keeps_keys (fx : Bool) (d : DSS) (ops : List Op) : SameKeys d (run fx q d ops) := run_sameKeys fx d ops
 
 /-- Invariant over all histories: the index map mirrors the stored partials, every stored partial has an index
     in range and a value on `randomPoly + h·longPoly`. -/
-theorem run_invariant (hq : 0 < q) (d : DSS) (ops : List Op) (hown : OwnOK q d) (hinit : d.partials = [] ∧ d.seen = []) :
-    Inv q (run q d ops) :=
-  inv_run hq d ops hown ⟨by simp [hinit.1, hinit.2], by simp [hinit.1]⟩
+theorem run_invariant (hq : 0 < q) (fx : Bool) (d : DSS) (ops : List Op) (hown : OwnOK q d)
+    (hinit : d.partials = [] ∧ d.seen = []) : Inv q (run fx q d ops) :=
+  inv_run hq fx d ops hown ⟨by simp [hinit.1, hinit.2], by simp [hinit.1]⟩
 
 /-- No index is stored twice, provided the node's own index only enters through `PartialSig()` (nobody else
     can authenticate a partial under the node's key: every received partial that authenticates carries another index). -/
-theorem run_seen_nodup (d : DSS) (ops : List Op) (hinit : d.partials = [] ∧ d.seen = [] ∧ d.signed = false)
+theorem run_seen_nodup (fx : Bool) (d : DSS) (ops : List Op) (hinit : d.partials = [] ∧ d.seen = [] ∧ d.signed = false)
     (hauth : ∀ ps a, Op.recv ps a ∈ ops → a = true → ps.I ≠ d.index) :
-    (run q d ops).seen.Nodup := by
+    (run fx q d ops).seen.Nodup := by
   suffices h : ∀ (ops : List Op) (d : DSS), (∀ ps a, Op.recv ps a ∈ ops → a = true → ps.I ≠ d.index) →
-      d.seen.Nodup → (d.signed = false → d.index ∉ d.seen) → (run q d ops).seen.Nodup by
+      d.seen.Nodup → (d.signed = false → d.index ∉ d.seen) → (run fx q d ops).seen.Nodup by
     exact h ops d hauth (by simp [hinit.2.1]) (by simp [hinit.2.1])
   intro ops
   induction ops with
   | nil => intro d _ h _; exact h
   | cons op ops ih =>
     intro d hauth hnd hown
-    have hk := step_sameKeys (q := q) d op
-    have hidx : (step q d op).index = d.index := hk.2.2.2.2.2.2.1
-    refine ih (step q d op) (fun ps a hm ha => hidx ▸ hauth ps a (List.mem_cons_of_mem _ hm) ha) ?_ ?_
+    have hk := step_sameKeys (q := q) fx d op
+    have hidx : (step fx q d op).index = d.index := hk.2.2.2.2.2.2.1
+    refine ih (step fx q d op) (fun ps a hm ha => hidx ▸ hauth ps a (List.mem_cons_of_mem _ hm) ha) ?_ ?_
     · cases op with
       | sign =>
-        show (partialSig q d).1.seen.Nodup
+        show (partialSig fx q d).1.seen.Nodup
         unfold partialSig
         simp only
-        split
-        · next hs =>
-          have : d.signed = false := by simpa using hs
+        split_ifs with hs hf
+        · exact hnd
+        · have : d.signed = false := by simpa using hs
           exact List.nodup_append.mpr ⟨hnd, List.nodup_singleton _, by
             intro a ha b hb; simp at hb; subst hb; exact fun e => hown this (e ▸ ha)⟩
         · exact hnd
@@ -118,10 +118,11 @@ theorem run_seen_nodup (d : DSS) (ops : List Op) (hinit : d.partials = [] ∧ d.
             intro x hx b hb; simp at hb; subst hb; exact fun e => h4 (e ▸ hx)⟩
     · cases op with
       | sign =>
-        show (partialSig q d).1.signed = false → (partialSig q d).1.index ∉ (partialSig q d).1.seen
+        show (partialSig fx q d).1.signed = false → (partialSig fx q d).1.index ∉ (partialSig fx q d).1.seen
         unfold partialSig
         simp only
-        split
+        split_ifs
+        · intro h; simp at h
         · intro h; simp at h
         · exact hown
       | recv ps a =>
@@ -139,22 +140,62 @@ theorem run_seen_nodup (d : DSS) (ops : List Op) (hinit : d.partials = [] ∧ d.
           simp only [List.mem_append, List.mem_singleton, not_or]
           exact ⟨hown hs, fun e => hne e.symm⟩
 
+/-- THE GAP in the code as it stands (`fixOwn = false`): if a partial of the node's own index was stored by
+    `ProcessPartialSig` before the first `PartialSig()` call (it was issued by another instance of the same node),
+    the index is stored twice: `EnoughPartialSig` counts it twice although `Signature` will not. -/
+theorem own_partial_counted_twice (d : DSS) (hs : d.signed = false) (hm : d.index ∈ d.seen) :
+    ¬ (partialSig false q d).1.seen.Nodup := by
+  unfold partialSig
+  simp only [hs, Bool.not_false, if_true, Bool.false_and, Bool.false_eq_true, if_false]
+  intro h
+  have := (List.nodup_append.mp h).2.2 d.index hm d.index (by simp)
+  exact this rfl
+
+/-- With fixes/C12-own-partial-counted-twice.patch (`fixOwn = true`) no index is ever stored twice, in any history. -/
+theorem run_seen_nodup_fixed (d : DSS) (ops : List Op) (hinit : d.seen.Nodup) : (run true q d ops).seen.Nodup := by
+  induction ops generalizing d with
+  | nil => exact hinit
+  | cons op ops ih =>
+    refine ih (step true q d op) ?_
+    cases op with
+    | sign =>
+      show (partialSig true q d).1.seen.Nodup
+      unfold partialSig
+      simp only
+      split_ifs with hs hf
+      · exact hinit
+      · have hnm : d.index ∉ d.seen := by simpa using hf
+        exact List.nodup_append.mpr ⟨hinit, List.nodup_singleton _, by
+          intro a ha b hb; simp at hb; subst hb; exact fun e => hnm (e ▸ ha)⟩
+      · exact hinit
+    | recv ps a =>
+      show (processPartialSig q d ps a).1.seen.Nodup
+      unfold processPartialSig
+      split_ifs with h1 h2 h3 h4 h5
+      · exact hinit
+      · exact hinit
+      · exact hinit
+      · exact hinit
+      · exact hinit
+      · exact List.nodup_append.mpr ⟨hinit, List.nodup_singleton _, by
+          intro x hx b hb; simp at hb; subst hb; exact fun e => h4 (e ▸ hx)⟩
+
 /-! ### The signature -/
 
 /-- From any history after which at least `T` distinct indices are stored — whatever the arrival order, whichever
     participant combines — `Signature()` returns `(R, γ)` with `γ = r + h·a` (discrete logs of `R` and of the
     distributed public key `A`), i.e. an ordinary Schnorr/EdDSA signature: `γ·B = R + h·A`. -/
-theorem signature_eq [Fact q.Prime] (hq2 : 2 < q) (d : DSS) (ops : List Op) (hown : OwnOK q d)
+theorem signature_eq [Fact q.Prime] (hq2 : 2 < q) (fx : Bool) (d : DSS) (ops : List Op) (hown : OwnOK q d)
     (hinit : d.partials = [] ∧ d.seen = []) (hT : 1 ≤ d.T) (hn : d.n < 2 ^ 32 ∧ d.n < q)
     (hdeg : d.longC.length ≤ d.T ∧ d.randC.length ≤ d.T)
-    (hcnt : d.T ≤ (run q d ops).seen.toFinset.card) :
-    ∃ γ, signature q (run q d ops) = some (d.randC.headD 0, γ) ∧ γ < q ∧
+    (hcnt : d.T ≤ (run fx q d ops).seen.toFinset.card) :
+    ∃ γ, signature q (run fx q d ops) = some (d.randC.headD 0, γ) ∧ γ < q ∧
       ((γ : Nat) : ZMod q) = (d.randC.headD 0 : ZMod q) + (d.h : ZMod q) * (d.longC.headD 0 : ZMod q) ∧
       eddsaEq q (d.longC.headD 0) d.h (d.randC.headD 0, γ) = true := by
   have hq : 0 < q := by omega
-  have hk := run_sameKeys (q := q) d ops
-  have hinv := run_invariant hq d ops hown hinit
-  set d' := run q d ops with hd'
+  have hk := run_sameKeys (q := q) fx d ops
+  have hinv := run_invariant hq fx d ops hown hinit
+  set d' := run fx q d ops with hd'
   have hpoly : sigPoly q d' = sigPoly q d := sigPoly_sameKeys hk
   have hT' : d'.T = d.T := hk.2.1
   have hn' : d'.n = d.n := hk.1
@@ -196,16 +237,16 @@ theorem signature_eq [Fact q.Prime] (hq2 : 2 < q) (d : DSS) (ops : List Op) (how
 /-- Every participant derives the same signature: two DSS objects for the same distributed keys, message and
     threshold — different nodes, different histories and arrival orders — that both hold at least `T` distinct
     partials return the same `(R, γ)`. -/
-theorem signature_agree [Fact q.Prime] (hq2 : 2 < q) (d₁ d₂ : DSS) (ops₁ ops₂ : List Op)
+theorem signature_agree [Fact q.Prime] (hq2 : 2 < q) (fx₁ fx₂ : Bool) (d₁ d₂ : DSS) (ops₁ ops₂ : List Op)
     (hsame : d₂.T = d₁.T ∧ d₂.longC = d₁.longC ∧ d₂.randC = d₁.randC ∧ d₂.h = d₁.h)
     (ho₁ : OwnOK q d₁) (ho₂ : OwnOK q d₂) (hi₁ : d₁.partials = [] ∧ d₁.seen = []) (hi₂ : d₂.partials = [] ∧ d₂.seen = [])
     (hT : 1 ≤ d₁.T) (hn₁ : d₁.n < 2 ^ 32 ∧ d₁.n < q) (hn₂ : d₂.n < 2 ^ 32 ∧ d₂.n < q)
     (hdeg : d₁.longC.length ≤ d₁.T ∧ d₁.randC.length ≤ d₁.T)
-    (c₁ : d₁.T ≤ (run q d₁ ops₁).seen.toFinset.card) (c₂ : d₂.T ≤ (run q d₂ ops₂).seen.toFinset.card) :
-    signature q (run q d₁ ops₁) = signature q (run q d₂ ops₂) := by
+    (c₁ : d₁.T ≤ (run fx₁ q d₁ ops₁).seen.toFinset.card) (c₂ : d₂.T ≤ (run fx₂ q d₂ ops₂).seen.toFinset.card) :
+    signature q (run fx₁ q d₁ ops₁) = signature q (run fx₂ q d₂ ops₂) := by
   obtain ⟨e1, e2, e3, e4⟩ := hsame
-  obtain ⟨γ₁, a1, a2, a3, _⟩ := signature_eq hq2 d₁ ops₁ ho₁ hi₁ hT hn₁ hdeg c₁
-  obtain ⟨γ₂, b1, b2, b3, _⟩ := signature_eq hq2 d₂ ops₂ ho₂ hi₂ (e1 ▸ hT) hn₂ (by rw [e1, e2, e3]; exact hdeg) c₂
+  obtain ⟨γ₁, a1, a2, a3, _⟩ := signature_eq hq2 fx₁ d₁ ops₁ ho₁ hi₁ hT hn₁ hdeg c₁
+  obtain ⟨γ₂, b1, b2, b3, _⟩ := signature_eq hq2 fx₂ d₂ ops₂ ho₂ hi₂ (e1 ▸ hT) hn₂ (by rw [e1, e2, e3]; exact hdeg) c₂
   rw [a1, b1, e3]
   rw [e2, e3, e4] at b3
   rw [(eq_iff_cast_eq _ _ a2 b2).mpr (a3.trans b3.symm)]
@@ -224,8 +265,8 @@ theorem signature_refuses (d : DSS) (hT : 1 ≤ d.T)
   · simp [hl]
 
 /-- The driver's history runner (`Drive/Dss.lean`) ends in exactly the state `run` the theorems speak about. -/
-theorem driver_runs_run (d : DSS) (ops : List Op) (acc : List String) :
-    (Kyber.Drive.dssRun q d ops acc).1 = run q d ops := by
+theorem driver_runs_run (fx : Bool) (d : DSS) (ops : List Op) (acc : List String) :
+    (Kyber.Drive.dssRun fx q d ops acc).1 = run fx q d ops := by
   induction ops generalizing d acc with
   | nil => rfl
   | cons op ops ih =>
@@ -244,12 +285,12 @@ theorem exampleDSS_ownOK : OwnOK 101 exampleDSS := by
   simp
   decide
 
-theorem exampleDSS_seen : (run 101 exampleDSS [Op.sign, Op.recv ⟨2, 66, 77⟩ true]).seen = [0, 2] := by decide
+theorem exampleDSS_seen : (run false 101 exampleDSS [Op.sign, Op.recv ⟨2, 66, 77⟩ true]).seen = [0, 2] := by decide
 
 /-- The hypotheses of `signature_eq` hold for a concrete history (own partial, then the partial of node 2). -/
-example : ∃ γ, signature 101 (run 101 exampleDSS [Op.sign, Op.recv ⟨2, 66, 77⟩ true]) = some (5, γ) := by
+example : ∃ γ, signature 101 (run false 101 exampleDSS [Op.sign, Op.recv ⟨2, 66, 77⟩ true]) = some (5, γ) := by
   have := Kyber.Share.prime_101
-  obtain ⟨γ, h, _⟩ := signature_eq (q := 101) (by norm_num) exampleDSS [Op.sign, Op.recv ⟨2, 66, 77⟩ true] exampleDSS_ownOK
+  obtain ⟨γ, h, _⟩ := signature_eq (q := 101) (by norm_num) false exampleDSS [Op.sign, Op.recv ⟨2, 66, 77⟩ true] exampleDSS_ownOK
     ⟨rfl, rfl⟩ (by decide) (by decide) (by decide) (by rw [exampleDSS_seen]; decide)
   exact ⟨γ, h⟩
 
